@@ -147,7 +147,8 @@ func (f *Fosite) authorizeRequestParametersFromOpenIDConnectRequest(ctx context.
 	}
 
 	for k, v := range claims {
-		request.Form.Set(k, fmt.Sprintf("%s", v))
+		// claims are not only strings ("max_age": 60): %s would turn a number into "%!s(int64=60)"
+		request.Form.Set(k, fmt.Sprint(v))
 	}
 
 	claimScope := RemoveEmpty(strings.Split(request.Form.Get("scope"), " "))
